@@ -10,7 +10,11 @@ def items():
 
 def run(tier='quick', seed=0, only=None):
     its = [i for i in items() if not only or only in i.cid]
-    return runner.run_property(PID, its, tier=tier, seed=seed, level='proof',
+    bounded = []
+    if not only:
+        from bounded import hashed_area as _b
+        bounded = [_b.component]
+    return runner.run_property(PID, its, bounded=bounded, tier=tier, seed=seed, level='proof',
                                trusted_base=['pyvc symbolic executor', 'z3 5.1 / cvc5 1.0.3'],
                                assumptions=['callee contract of the subpacket dispatcher SignatureSP(packet): consumes >= 1 octets from the front '
                                             'of its argument in place, or raises (assumed in C05; the header codec is proved in C09)'])
